@@ -107,6 +107,42 @@ func (e *Engine) registerIntrinsics() {
 			valueRefs(c.Args[0], mark)
 			return one(c.St, BoolC(found))
 		}
+		e.intr[pp+".ndFakeLenInts"] = func(e *Engine, c *CallCtx) []Outcome {
+			// a []int of symbolic length whose elements are never read (see ndAtFirstLoop)
+			n := c.Args[0].(*Term)
+			id := c.St.Alloc(&Object{Kind: KCell, Typ: types.NewArray(types.Typ[types.Int], 0), Val: VArray{}, Site: c.Site})
+			return one(c.St, VSlice{Nil: False, Obj: id, Off: I64(0), Len: n, Cap: n})
+		}
+		e.intr[pp+".ndAtFirstLoop"] = func(e *Engine, c *CallCtx) []Outcome {
+			name, ok := c.Args[0].(VString).Concrete()
+			if !ok {
+				unsupported("ndAtFirstLoop: function name must be constant")
+			}
+			prev := e.cutFn
+			e.cutFn = name
+			outs := e.callValue(c.St, c.Args[1], nil, c.Instr, c.Depth+1)
+			e.cutFn = prev
+			var res []Outcome
+			for _, o := range outs {
+				switch {
+				case o.Panic != nil:
+					res = append(res, o)
+				case o.Cut:
+					res = append(res, Outcome{St: o.St, Ret: VTuple{Elems: []Value{o.Ret, True}}})
+				default:
+					res = append(res, Outcome{St: o.St, Ret: VTuple{Elems: []Value{NilSlice(true), False}}})
+				}
+			}
+			return res
+		}
+		e.intr[pp+".ndPrefer"] = func(e *Engine, c *CallCtx) []Outcome {
+			// a soft preference for counterexample models (never affects a verdict)
+			t := c.Args[0].(*Term)
+			if !t.IsConst() {
+				e.prefs = append(e.prefs, t)
+			}
+			return one(c.St, nil)
+		}
 		e.intr[pp+".ndConcrete"] = func(e *Engine, c *CallCtx) []Outcome {
 			t := c.Args[0].(*Term)
 			if k, ok := c.St.Conc(t); ok {
